@@ -267,6 +267,17 @@ template <typename T> static void lean_one(const char* what, T x, T got, bool re
   rep().count("c20_lean_translation_unit_values"); rep().note(hash_combine(hash_str(what), hash_bytes((const uint8_t*)&x, sizeof(T))), !biteq(rev, x));
   if (!biteq(got, exp)) rep().violation(fmt("oracle-endian:lean-translation-unit:%s", what), fmt("%s(bytes %s) compiled in a translation unit that includes <nop/utility/endian.h> first = bytes %s, expected bytes %s", what, bits(x).c_str(), bits(got).c_str(), bits(exp).c_str()), case_desc(what, -1, "lean", J().s("bytes", bits(x)).str()));
 }
+// values converted during static initialisation by engines/hash/early_endian.cpp
+namespace vf_early { struct Early { std::uint32_t to_big32, from_big32; std::uint16_t to_big16; std::uint64_t from_big64, from_little64; std::int32_t to_big_i32; std::uint32_t to_little32; }; const Early& early(); }
+static void c20_early() {
+  if (!mine(18)) return;
+  const vf_early::Early& e = vf_early::early();
+  lean_one<uint32_t>("static-initialisation:HostEndian<uint32_t>::ToBig", 0x11223344u, e.to_big32, true); lean_one<uint32_t>("static-initialisation:HostEndian<uint32_t>::FromBig", 0x11223344u, e.from_big32, true);
+  lean_one<uint16_t>("static-initialisation:HostEndian<uint16_t>::ToBig", 0x1122, e.to_big16, true); lean_one<uint64_t>("static-initialisation:HostEndian<uint64_t>::FromBig", 0x1122334455667788ull, e.from_big64, true);
+  lean_one<uint64_t>("static-initialisation:HostEndian<uint64_t>::FromLittle", 0x1122334455667788ull, e.from_little64, false); lean_one<int32_t>("static-initialisation:HostEndian<int32_t>::ToBig", -2, e.to_big_i32, true);
+  lean_one<uint32_t>("static-initialisation:HostEndian<uint32_t>::ToLittle", 0x11223344u, e.to_little32, false);
+  rep().count("c20_static_initialisation_values", 7);
+}
 static void c20_lean() {
   if (!mine(17)) return;
   Rng r = case_rng("lean", 0);
@@ -348,7 +359,7 @@ int vf::engine_main() {
     c20_type<float, uint32_t>("float", 8); c20_type<double, uint64_t>("double", 9);
     // the integral types that are distinct from every fixed-width typedef on this ABI ("every integral value" is not only the <cstdint> names)
     c20_type<long long, uint64_t>("long long", 10); c20_type<unsigned long long, uint64_t>("unsigned long long", 11);
-    c20_lean();
+    c20_lean(); c20_early();
     c20_type<char, uint8_t>("char", 12); c20_type<wchar_t, uint32_t>("wchar_t", 13); c20_type<char16_t, uint16_t>("char16_t", 14); c20_type<char32_t, uint32_t>("char32_t", 15);
     return 0;
   }
